@@ -523,6 +523,60 @@ func generate() {
 		do(fmt.Sprintf("mt %d %d", a, b))
 	}
 
+	// ---- (5a) the byte-level pair WriteFavorites / GetFavorites, up to the largest legal file
+	{
+		wgt := func(items []*spec) { do(strings.TrimSpace("wgt " + fmtTree(items))) }
+		// boundary-size trees: MAX_FAV entries in all
+		var maxTree []*spec // 16 folders of 63 folders: 1024 folder entries, the largest legal file
+		for i := 0; i < 16; i++ {
+			maxTree = append(maxTree, folder(i, rep(63, folderE)))
+		}
+		wgt(maxTree)
+		var tenByHundred []*spec
+		for i := 0; i < 10; i++ {
+			tenByHundred = append(tenByHundred, folder(i, rep(MB, board)))
+		}
+		wgt(append(tenByHundred, rep(fav.MAX_FAV-10*(MB+1), line)...)) // 1024 entries
+		var sixtyFour []*spec
+		for i := 0; i < 64; i++ {
+			sixtyFour = append(sixtyFour, folder(i, rep(15, board)))
+		}
+		wgt(sixtyFour)
+		wgt([]*spec{folder(0, rep(MB, board)), board(0)})
+		wgt(nil)
+		// one folder more / fewer around the 14342-byte mark: k folders of 100 boards
+		for k := 9; k <= 11; k++ {
+			var t []*spec
+			for i := 0; i < k && (i+1)*(MB+1) <= fav.MAX_FAV; i++ {
+				t = append(t, folder(i, rep(MB, board)))
+			}
+			wgt(t)
+		}
+		nBig := 4
+		if th {
+			nBig = 60
+		}
+		for i := 0; i < nBig; i++ {
+			budget := 700 + r.Intn(325)
+			wgt(randItemsM(r, 2+r.Intn(4), 64, &budget, i%2 == 0, true))
+		}
+		// raw contents of every interesting length
+		lens := []int{0, 1, 20, 4096, 14341, 14342, 14343, 14384, 17030, 32768, 57349, 57350, 57351, 100000}
+		if th {
+			for i := 0; i < 40; i++ {
+				lens = append(lens, r.Intn(60000))
+			}
+		}
+		for _, n := range lens {
+			do("wg 0 " + hx.Hex(r.Bytes(n, nil)))
+		}
+		small := hx.Hex(validImage([]*spec{board(0), line(0)}))
+		for _, ts := range []int{0, 5, fileMTime - 1, fileMTime, fileMTime + 1, 2147483647} {
+			do(fmt.Sprintf("wg %d %s", ts, small))
+			do(fmt.Sprintf("wg %d none", ts))
+		}
+	}
+
 	// ---- (5b) overlapping saves of one user's favourites
 	{
 		n, ms := 2, 600
